@@ -55,6 +55,8 @@ def script_code(draw, max_items=12, truncated_ok=True):
             st.one_of(
                 st.sampled_from([b"\xab", b"\xac", b"\x51", b"\x00", b"\x63", b"\x68", b"\x75", b"\x76", b"\xad"]),
                 st.binary(min_size=1, max_size=1),
+                st.just(b"\xab"),
+                st.just(b"\xab"),
                 st.binary(max_size=6).map(push),
                 st.just(push(b"\xab")),
                 st.just(push(b"\x01\xab\xab")),
@@ -65,7 +67,21 @@ def script_code(draw, max_items=12, truncated_ok=True):
         )
     )
     s = b"".join(items)
-    if truncated_ok and draw(st.integers(0, 9)) == 0:
+    # a lone byte may open a push that runs over the end: unless a truncated script is wanted, the push gets the bytes it announces
+    # (every truncated script fails when run, so it is the rare case, and the one where the definitions of the legacy digest part ways)
+    from vlib.models import sighash_ref as _ref
+
+    if _ref.is_truncated(s):
+        stop = 0
+        for _op, _start, stop in _ref.script_ops(s):
+            pass
+        for _ in range(80):
+            s += b"\xab"
+            if not _ref.is_truncated(s):
+                break
+        else:
+            s = s[:stop]  # the push announces more than a script holds: dropped
+    if truncated_ok and draw(st.integers(0, 19)) == 7:
         s += draw(st.sampled_from([b"\x05\xab", b"\x4c", b"\x4c\x05\xab\xab", b"\x4d\xff", b"\x4e\x01\x00\x00", b"\x20\xab\xab\xab"]))
     return s.hex()
 
